@@ -589,6 +589,8 @@ def newtontrustregion(f, x0, jac=None, tol=None, verbose=False, maxiter=200, jac
             if verbose:
                 print(f"[ntr-finished]: x = {D.ar_numpy.to_numpy(x)}, ||dx|| = {D.ar_numpy.to_numpy(dxn)}, ||F|| = {D.ar_numpy.to_numpy(Fn1)}, ||dF|| = {D.ar_numpy.to_numpy(df)}")
             break
+    # a converged step is not a solution by itself: success also needs a residual at the level of the tolerance
+    success = success and bool(Fn1 <= 10 * tol * (xdim + D.ar_numpy.linalg.norm(x)))
     x = D.ar_numpy.reshape(x, xshape)
     if var_bounds is not None:
         x = transform_to_unbounded_x(x, *var_bounds)
@@ -717,6 +719,8 @@ def hybrj(f, x0, jac, tol=None, verbose=False, maxiter=200, var_bounds=None):
                 Fn0 = D.ar_numpy.linalg.norm(F0)
                 print(f"[hybrj-finished]: ||F|| = {D.ar_numpy.to_numpy(Fn0)}, ||dx|| = {D.ar_numpy.to_numpy(dxn)}, x = {D.ar_numpy.to_numpy(x)}, F = {D.ar_numpy.to_numpy(F0)}")
             break
+    # a converged step or a collapsed trust region is not a solution by itself: success also needs a residual at the level of the tolerance
+    success = bool(success) and bool(D.ar_numpy.linalg.norm(F0) <= 10 * tol * (xdim + D.ar_numpy.linalg.norm(x)))
     x = D.ar_numpy.reshape(x, xshape)
     if var_bounds is not None:
         x = transform_to_unbounded_x(x, *var_bounds)
@@ -815,6 +819,8 @@ def nonlinear_roots(f, x0, jac=None, tol=None, verbose=False, maxiter=200, use_s
         x = D.ar_numpy.reshape(res.x, (xdim, 1))
         F = D.ar_numpy.reshape(res.fun, fshape)
         success = res.success or ("no futher improvement" in res.message and D.ar_numpy.linalg.norm(res.fun) <= D.tol_epsilon(x0.dtype))
+        # MINPACK reports convergence of the step; success also needs a residual at the level of the tolerance
+        success = bool(success) and bool(D.ar_numpy.linalg.norm(res.fun) <= 10 * tol * (xdim + D.ar_numpy.linalg.norm(res.x)))
         if success:
             x = D.ar_numpy.reshape(x, xshape)
             if var_bounds is not None:
